@@ -93,9 +93,7 @@ def plain(t):
     return {k: plain(v) for k, v in t.items()}
 
 
-@st.composite
-def _cases(draw):
-    rnd = draw(urandoms())
+def _gen_from(rnd):
     vendor = rnd.choice(os.environ.get("VF_C04_VENDORS", "").split(",") if os.environ.get("VF_C04_VENDORS") else VENDORS)
     if vendor == "routeros":
         t = _gen_ros(rnd)
@@ -104,6 +102,16 @@ def _cases(draw):
     wrapper = vendor == "nokia" and rnd.chance(40)
     return {"vendor": vendor, "tree": plain(t), "indent": rnd.choice(["  ", "  ", " ", "    "]), "nokia_wrapper": wrapper}
 
+
+@st.composite
+def _cases(draw):
+    return _gen_from(draw(urandoms()))
+
+
+def fuzz_decode(fdp):
+    """coverage-guided tier: the same generator driven by fuzzer-chosen bytes (vf/core/fuzz_target.py)"""
+    from vf.model.rnd import FdpRandom
+    return _gen_from(FdpRandom(fdp))
 
 def strategy(tier):
     return _cases()
